@@ -45,6 +45,9 @@ type outcome struct {
 	// OnPath: some named position is the start of a node on the way from the root to the
 	// place of the fault or below it (computed by the parent process, which knows the place)
 	OnPath bool `json:"onpath"`
+	// OnPathIn: the innermost position of the chain (the most specific one) is on the way to the
+	// mutated node or below it
+	OnPathIn bool `json:"onpathin"`
 }
 
 // locRec is one position a diagnostic names: whether the named file belongs to the
@@ -516,7 +519,7 @@ func apply(op string, s site, root *yaml.Node) bool {
 			return false
 		}
 		set(deepNest(1000))
-	case "cyclic_oneof", "cyclic_anyof", "cyclic_allof", "cyclic_items", "cyclic_required", "cyclic_addl", "cyclic_pair":
+	case "cyclic_oneof", "cyclic_anyof", "cyclic_allof", "cyclic_items", "cyclic_required", "cyclic_addl", "cyclic_pair", "cyclic_two_oneof_anyof", "cyclic_two_allof_anyof", "cyclic_two_allof_oneof":
 		// a schema position now refers to a component that contains itself
 		if !isMap || !(p.Content[s.idx-1].Value == "schema" || p.Content[s.idx-1].Value == "items" ||
 			strings.HasSuffix(s.path[:strings.LastIndex(s.path, "/")], "/components/schemas")) {
@@ -532,6 +535,13 @@ func apply(op string, s site, root *yaml.Node) bool {
 			body = mapping("anyOf", seq(self, mapping("type", scalar("!!str", "integer"))))
 		case "cyclic_allof":
 			body = mapping("allOf", seq(self, mapping("type", scalar("!!str", "object"))))
+		// two composition keywords in one schema, the cycle running through the second
+		case "cyclic_two_oneof_anyof":
+			body = mapping("oneOf", seq(str, mapping("type", scalar("!!str", "integer"))), "anyOf", seq(self, mapping("type", scalar("!!str", "boolean"))))
+		case "cyclic_two_allof_anyof":
+			body = mapping("allOf", seq(mapping("type", scalar("!!str", "object"))), "anyOf", seq(self, str))
+		case "cyclic_two_allof_oneof":
+			body = mapping("allOf", seq(mapping("type", scalar("!!str", "object"))), "oneOf", seq(self, str))
 		case "cyclic_items":
 			body = mapping("type", scalar("!!str", "array"), "items", self)
 		case "cyclic_required":
@@ -646,7 +656,8 @@ func addSchema(root *yaml.Node, name string, body *yaml.Node) bool {
 }
 
 var ops = []string{"delete", "retype_scalar", "retype_map", "retype_seq", "null", "break_escape", "dangling_ref", "cyclic_ref", "duplicate_key", "big_number", "negative_number", "nest_deep",
-	"cyclic_oneof", "cyclic_anyof", "cyclic_allof", "cyclic_items", "cyclic_required", "cyclic_addl", "cyclic_pair", "tuple_null", "tuple_scalar", "unknown_name", "wrong_enum_value", "odd_string"}
+	"cyclic_oneof", "cyclic_anyof", "cyclic_allof", "cyclic_items", "cyclic_required", "cyclic_addl", "cyclic_pair", "tuple_null", "tuple_scalar", "unknown_name", "wrong_enum_value", "odd_string",
+	"cyclic_two_oneof_anyof", "cyclic_two_allof_anyof", "cyclic_two_allof_oneof"}
 
 // toJSON spells a node tree as JSON text; ok=false when it has no JSON spelling.
 func toJSON(n *yaml.Node, b *strings.Builder, depth int) bool {
@@ -918,6 +929,24 @@ func Check(r *core.Run) error {
 			add(c, y, j)
 			return true
 		})
+		// a document whose scalar values spell the names of the keys next to them
+		if o := runOne([]byte(hostEcho)); o.Kind != "ok" {
+			return fmt.Errorf("%w: host document (echo) refused: %s", tlc.ErrInfra, o.Msg)
+		}
+		add(fcase{spec: "host-echo", op: "none", kind: "doc"}, []byte(hostEcho), nil)
+		enumerate("host-echo", []byte(hostEcho), 1<<30, func(c fcase, root *yaml.Node) bool {
+			y, err := yaml.Marshal(root)
+			if err != nil {
+				return false
+			}
+			var jb strings.Builder
+			var j []byte
+			if toJSON(root, &jb, 0) {
+				j = []byte(jb.String())
+			}
+			add(c, y, j)
+			return true
+		})
 		// the two-file set: faults are placed in ext, root stays as it is
 		var rootNode yaml.Node
 		if err := yaml.Unmarshal([]byte(strings.ReplaceAll(hostRoot, "ext.yml", "ext.json")), &rootNode); err != nil {
@@ -1034,7 +1063,7 @@ func Check(r *core.Run) error {
 	nLocs, nExtLocs := 0, 0
 	// onPath relates the named positions to the place of the fault
 	onPath := func(c fcase, file string, o *outcome) {
-		o.OnPath = true
+		o.OnPath, o.OnPathIn = true, true
 		if c.segs == nil || o.Kind != "err" || len(o.Locs) == 0 {
 			return
 		}
@@ -1063,11 +1092,14 @@ func Check(r *core.Run) error {
 				o.OnPath = true
 			}
 		}
+		if in := o.Locs[len(o.Locs)-1]; !extOnly || strings.HasPrefix(filepath.Base(in.File), "ext.") {
+			o.OnPathIn = pos[[2]int{in.Line, in.Col}]
+		}
 	}
 	offPath := map[string][2]int{}
 	for i, c := range cases {
 		y := yo[i]
-		j := outcome{Kind: "na", Locs: []locRec{}, OnPath: true}
+		j := outcome{Kind: "na", Locs: []locRec{}, OnPath: true, OnPathIn: true}
 		if jout[i] != nil {
 			j = *jout[i]
 			onPath(c, c.jsonFile, &j)
@@ -1079,6 +1111,9 @@ func Check(r *core.Run) error {
 		if os.Getenv("VERIF_C11_ONPATH_STATS") != "" && y.Kind == "err" && len(y.Locs) > 0 {
 			st := offPath[c.op]
 			st[0]++
+			if !y.OnPathIn || !j.OnPathIn {
+				fmt.Fprintf(os.Stderr, "OFFPATH-INNERMOST %s %s %s y=%v j=%v %s\n", c.spec, c.op, c.path, y.OnPathIn, j.OnPathIn, y.Msg)
+			}
 			if !y.OnPath || !j.OnPath {
 				st[1]++
 				fmt.Fprintf(os.Stderr, "OFFPATH %s %s %s y=%v %d:%d j=%v %d:%d %s\n", c.spec, c.op, c.path, y.OnPath, y.Line, y.Col, j.OnPath, j.Line, j.Col, y.Msg)
